@@ -43,7 +43,7 @@ def is_late_bound(variant, final):
 def run_trace_tlc(path, timeout=1500):
     """Trace_VM on one trace file -> (meta dict or None, list of BAD dicts)"""
     res = nv.tlc("Trace_VM", "Trace_VM.cfg", workers=1, timeout=timeout, env={"TRACE": path},
-                 jvm=nv.TRACE_JVM + " -Xmx4g", want_tags=("BAD", "META"))
+                 jvm=nv.TRACE_JVM + " -Xmx4g -XX:ParallelGCThreads=2 -XX:CICompilerCount=2", want_tags=("BAD", "META"))
     meta = res.cases.get("META", [None])[-1]
     return meta, res.cases.get("BAD", []), res
 
@@ -71,17 +71,19 @@ def normalise_real(code, base, ffi_names, main):
     return out
 
 
-def compare_bytecode(case, cat, summ):
+def compare_bytecode(case, cat, summ, prefixes):
     """Compile(p) (from the CASE / CATCODE lines) against the decoded real bytecode; returns a list of differences"""
     dec, base = summ["decoded"], summ["base"]
+    if "prefix" in dec:
+        prefixes[dec["prefix_key"]] = dec["prefix"]
     ffi_names = {f["i"]: f["n"] for f in dec["ffi"]}
     model_chunks = [("<main>", case["main"])] + [(c["n"], c["code"]) for c in cat["chunks"][1:]] + [(c["n"], c["code"]) for c in case["extra"]]
     real_chunks = [("<main>", normalise_real(dec["main"], base, ffi_names, True))] + \
-                  [(c["n"], normalise_real(c["code"], base, ffi_names, False)) for c in dec["chunks"]]
+                  [(c["n"], normalise_real(c["code"], base, ffi_names, False)) for c in prefixes[dec["prefix_key"]] + dec["chunks"]]
     diffs = []
     if [n for n, _ in model_chunks] != [n for n, _ in real_chunks]:
         return [{"what": "chunks", "model": [n for n, _ in model_chunks], "real": [n for n, _ in real_chunks]}]
-    mconst = {c["i"]: c["tx"] for c in case["consts"]}
+    mconst = {c["i"]: c["tx"] for c in list(cat["consts"]) + list(case["consts"])}
     rconst = {c["i"] - base["c0"]: c["tx"] for c in dec["consts"]}
     numbering_only = True
     for (name, mcode), (_, rcode) in zip(model_chunks, real_chunks):
@@ -106,7 +108,8 @@ def j_stage(rep, tier, cases, cat_by_variant, d):
     inp = os.path.join(d, "cases.ndjson")
     tdir = os.path.join(d, "traces")
     shutil.rmtree(tdir, ignore_errors=True)
-    nv.harness("nv-vm", ["vm-trace", "--cases", inp, "--out-dir", tdir, "--per-file", "9000", "--limit", "4000"])
+    nv.write_ndjson(inp, [{"id": i, "stmts": c["stmts"], "kp": len(cat_by_variant[c["variant"]]["chunks"]) - 1} for i, c in enumerate(cases)])
+    nv.harness("nv-vm", ["vm-trace", "--cases", inp, "--out-dir", tdir, "--per-file", "16000" if tier == "quick" else "60000", "--limit", "4000"])
     summ = nv.read_ndjson_text(open(os.path.join(tdir, "gen_summary.ndjson")).read())
     if len(summ) != len(cases):
         raise nv.ToolError("nv-vm traced %d programs, expected %d" % (len(summ), len(cases)))
@@ -193,11 +196,12 @@ def j_stage(rep, tier, cases, cat_by_variant, d):
 
     # decoded bytecode of the generated programs against Compile(p)
     ndiff = nnum = 0
+    prefixes = {}
     for c, s in zip(cases, summ):
         if s["outcome"] != "ok" or not s.get("decoded"):
             continue
         rep.add("bytecode_compared_with_Compile", 1)
-        diffs = compare_bytecode(c, cat_by_variant[c["variant"]], s)
+        diffs = compare_bytecode(c, cat_by_variant[c["variant"]], s, prefixes)
         if diffs:
             ndiff += 1
             nnum += 1 if diffs[0]["numbering_only"] else 0
@@ -271,8 +275,10 @@ def run(tier, seed):
     for c in cases[5:: max(1, len(cases) // 5)][:4]:
         rep.sample({"final_expression": c["stmts"][-1], "variant": c["variant"], "expected": c["res"]})
 
-    # ---- J
-    j_stage(rep, tier, cases, cat_by_variant, d)
+    # ---- J (all programs; beyond 20000 programs every third one and everything that is not a plain integer)
+    jcases = cases if len(cases) <= 20000 else [c for i, c in enumerate(cases) if i % 3 == seed % 3 or c["res"]["k"] != "int"]
+    rep.set("j_programs_selected", "%d of %d" % (len(jcases), len(cases)))
+    j_stage(rep, tier, jcases, cat_by_variant, d)
 
     rep.set("rule", "catalogue of 15 definitions x 4 redefinition variants x generated final expressions / tails of MC_Eval.tla and "
             "MC_VM.tla (%s tier); non-trivial = programs whose result is not a plain integer, or that run after a "
